@@ -88,6 +88,8 @@ def _run_write(case, bs, bits, n, exp, x):
                 back = cls_of(case['cls'])(filename=p, length=n)
                 require(back.bin == bits, 'reading the written file back does not recover the bits', n=n)
                 del back
+        if bs.options.lsb0:
+            return {'nt': n % 8 != 0, 'labels': ['lsb0']}     # Array under lsb0 is not specified by the statement
         # Array
         a = bs.Array(case['array_dtype'], bs.BitArray(bin=bits))
         require(a.tobytes() == exp, 'Array.tobytes() differs from the padded data bytes', n=n)
@@ -208,6 +210,7 @@ def run_read(case):
             with open(p, 'rb') as fh:
                 x = c(fh, **kw) if kw else c(fh)
         else:
+            bs.options.lsb0 = False      # Array under lsb0 is not specified by the statement
             # Array.fromfile(f, n) / Array(dtype, bytes): whole items from the start of the source
             w = case['item']
             dt = f'uint{w}'
@@ -247,9 +250,9 @@ def selftest():
 
 
 SUBCHECKS = [
-    Sub('C17.tobytes_bytes_tofile', run_write, strategy=write_case, examples={'quick': 6000, 'thorough': 80000}),
+    Sub('C17.tobytes_bytes_tofile', run_write, strategy=write_case, examples={'quick': 6000, 'thorough': 80000}, ambient=('lsb0',)),
     Sub('C17.tofile_chunk_boundary_hook', run_chunks, enum=enum_chunks,
         enum_exhaustive_note='chunk sizes 8/64/4096 bits (hook) x k in {1,2,3} chunks x offsets -9..9 bits around k*chunk'),
     Sub('C17.tofile_real_chunk_boundary', run_real, enum=enum_real, enum_exhaustive_note='data just above the real 100 MiB chunk size (quick: 1 size; thorough: 5 sizes incl. 2 chunks) without the hook'),
-    Sub('C17.readback_window', run_read, strategy=read_case, examples={'quick': 8000, 'thorough': 120000}),
+    Sub('C17.readback_window', run_read, strategy=read_case, examples={'quick': 8000, 'thorough': 120000}, ambient=('lsb0',)),
 ]
